@@ -16,7 +16,7 @@ Not decided: arrival at the chart under all schedules.
 import ast
 
 from sa.model import AnalysisError, walk_shallow, dotted, norm
-from sa.util import cfg_of, shallow_calls, signal_const, local_defs, resolve_name, guarded_by_edge, strip_not
+from sa.util import cfg_of, shallow_calls, signal_const, local_defs, resolve_name, guarded_by_edge, strip_not, compare_parts, expand_locals
 from sa.context import callgraph
 from sa import wrap
 from sa.cfg import INF
@@ -101,8 +101,16 @@ def check(run, model, tier):
         run.floor('%s: direct calls of %s' % (nm, inner_nm), len(inner_calls), 1)
         run.floor('%s: deferred posts' % nm, len(posts), 1)
         # running branch: every path calls inner at most once, and at least once unless a KEYDEP guard skips it
-        succ_true = [m for m, lab in g.succ[rt] if lab == 'true']
-        succ_false = [m for m, lab in g.succ[rt] if lab == 'false']
+        # polarity of the test: `if running:` / `if not running:` / `if running is False:`
+        ri, rpol = strip_not(rt.ast)
+        rcp = compare_parts(ri)
+        if rcp and isinstance(rcp[2], ast.Constant) and isinstance(rcp[2].value, bool):
+            same = rcp[1] in (ast.Is, ast.Eq)
+            rpol = rpol if (rcp[2].value is True) == same else not rpol
+        elif not isinstance(ri, ast.Call):
+            raise AnalysisError('%s: the thread-running test has an unrecognised form (%s)' % (f.qualname, norm(rt.ast)))
+        succ_true = [m for m, lab in g.succ[rt] if lab == ('true' if rpol else 'false')]
+        succ_false = [m for m, lab in g.succ[rt] if lab == ('false' if rpol else 'true')]
         w_inner = lambda n: 1 if n in inner_calls else 0
         w_post = lambda n: 1 if n in posts else 0
         for m in succ_true:
@@ -185,7 +193,7 @@ def check(run, model, tier):
         run.inst('DELEGATE.pubsub', top, 'arm %s calls %s exactly once' % (meta, inner_nm), ok,
                  '' if ok else 'the %s arm of top() calls %s %s times' % (meta, inner_nm, cnt), node=t.ast, obligation=True)
         for n, c in calls:
-            got = [norm(a) for a in c.args]
+            got = [norm(expand_locals(a, top.node, params=top.params)) for a in c.args]
             want_suffix = ['payload.' + fl for fl in fields]
             ok = len(got) == len(fields) and all(gt.endswith(ws) for gt, ws in zip(got, want_suffix))
             run.inst('DELEGATE.pubsub', top, 'arm %s forwards payload fields (%s)' % (meta, ', '.join(fields)), ok,
